@@ -55,6 +55,14 @@ MUTATIONS = {
         ("crates/model/src/market/position_impact.rs", "            utils::apply_factor(&duration_value, params.distribute_factor())", "            utils::apply_factor(&duration_value, params.min_position_impact_pool_amount())", "wrong field: rate replaced by the minimum"),
         ("crates/model/src/params/position.rs", "    pub fn distribute_factor(&self) -> &T {\n        &self.distribute_factor", "    pub fn distribute_factor(&self) -> &T {\n        &self.min_position_impact_pool_amount", "accessor returns the wrong field"),
     ],
+    "C29": [
+        ("programs/store/src/states/oracle/mod.rs", "            .with_unit_price(ref_price.checked_add(max_deviation)?, false)?;", "            .with_unit_price(ref_price.checked_add(max_deviation)?, true)?;", "upper bound rounded up to the grid"),
+        ("programs/store/src/states/oracle/mod.rs", "            .with_unit_price(ref_price.checked_sub(max_deviation)?, true)?;", "            .with_unit_price(ref_price.checked_sub(max_deviation)?, false)?;", "lower bound rounded down to the grid"),
+        ("programs/store/src/states/oracle/mod.rs", "    if unit_prices.max.abs_diff(ref_price) > max_deviation {", "    if unit_prices.max.abs_diff(ref_price) >= max_deviation {", "max: > -> >="),
+        ("programs/store/src/states/oracle/mod.rs", "        adjusted_price.get_or_insert(*price).min = price\n            .min", "        adjusted_price.get_or_insert(*price).max = price\n            .min", "clamped min written to the max side"),
+        ("programs/store/src/states/oracle/mod.rs", "        None => unit_prices.checked_mid()?,", "        None => unit_prices.min,", "mid reference replaced by the min price"),
+        ("programs/store/src/states/oracle/mod.rs", "    let max_deviation = apply_factor::<_, { constants::MARKET_DECIMALS }>(&ref_price, factor)?;", "    let max_deviation = apply_factor::<_, { constants::MARKET_DECIMALS }>(&unit_prices.max, factor)?;", "deviation taken of the max price instead of the reference"),
+    ],
     "C31": [
         ("programs/store/src/states/store.rs", "            .and_then(|factor| discount_factor_for_referred.checked_add(factor))", "            .and_then(|factor| discount_factor_for_referred.checked_sub(factor))", "referral discount combined with - instead of +"),
         ("programs/store/src/states/store.rs", "                .checked_sub(*discount_factor_for_referred)\n", "                .checked_sub(discount_factor_for_rank)\n", "complement taken of the rank discount"),
